@@ -1,8 +1,15 @@
-"""Fork-based worker pool: each worker has /repo's guppylang imported once."""
+"""Fork-based worker pool: each worker has /repo's guppylang imported once.
+
+The pool is created on first use and reused for the rest of the process (forking the loaded
+interpreter costs ~0.5 s per worker in this sandbox)."""
 from __future__ import annotations
 
+import atexit
 import multiprocessing as mp
 import os
+
+_POOL = None
+_PROCS = 0
 
 
 def _init():
@@ -11,13 +18,27 @@ def _init():
     import guppylang.std.quantum  # noqa: F401
 
 
-def map_jobs(fn, jobs, procs: int | None = None, chunksize: int = 4, maxtasks: int | None = 2000):
-    """Ordered parallel map. `fn` must be a module-level function."""
-    procs = procs or min(os.cpu_count() or 4, 16)
+def _close():
+    global _POOL
+    if _POOL is not None:
+        try:
+            _POOL.terminate()
+            _POOL.join()
+        except Exception:  # noqa: BLE001
+            pass
+        _POOL = None
+
+
+def map_jobs(fn, jobs, procs: int | None = None, chunksize: int = 4, maxtasks: int | None = None):
+    """Ordered parallel map. `fn` must be a module-level function (defined before the first call)."""
+    global _POOL, _PROCS
+    procs = procs or min(os.cpu_count() or 4, 12)
     _init()  # parent too: children inherit the imports, and unpickled results resolve to /repo
     if len(jobs) <= 2 or procs == 1:
-        _init()
         return [fn(j) for j in jobs]
-    ctx = mp.get_context("fork")
-    with ctx.Pool(procs, initializer=_init, maxtasksperchild=maxtasks) as p:
-        return p.map(fn, jobs, chunksize=chunksize)
+    if _POOL is None or _PROCS != procs:
+        _close()
+        _POOL = mp.get_context("fork").Pool(procs, initializer=_init)
+        _PROCS = procs
+        atexit.register(_close)
+    return _POOL.map(fn, jobs, chunksize=chunksize)
